@@ -76,8 +76,43 @@ def lean_str_list(xs):
     return "[" + ", ".join(lean_str(x) for x in xs) + "]"
 
 
+def aead_use_before_increment(src, func, ivattr, method):
+    """AST fact about paramiko/packet.py: inside Packetizer.<func> the single call `<engine>.<method>(self.<ivattr>, …)`
+    ends before the single statement `self.<ivattr> = self._inc_iv_counter(…)` starts.  None = pattern not found."""
+    import ast
+
+    def is_self_attr(node, name):
+        return isinstance(node, ast.Attribute) and node.attr == name and isinstance(node.value, ast.Name) \
+            and node.value.id == "self"
+
+    fn = None
+    for cls in ast.walk(ast.parse(src)):
+        if isinstance(cls, ast.ClassDef) and cls.name == "Packetizer":
+            for f in cls.body:
+                if isinstance(f, ast.FunctionDef) and f.name == func:
+                    fn = f
+    if fn is None:
+        return None
+    uses = [n for n in ast.walk(fn) if isinstance(n, ast.Call) and isinstance(n.func, ast.Attribute)
+            and n.func.attr == method and n.args and is_self_attr(n.args[0], ivattr)]
+    incs = [n for n in ast.walk(fn) if isinstance(n, ast.Assign) and len(n.targets) == 1
+            and is_self_attr(n.targets[0], ivattr) and isinstance(n.value, ast.Call)
+            and isinstance(n.value.func, ast.Attribute) and n.value.func.attr == "_inc_iv_counter"]
+    if len(uses) != 1 or len(incs) != 1:
+        return None
+    return (uses[0].end_lineno, uses[0].end_col_offset) <= (incs[0].lineno, incs[0].col_offset)
+
+
+def aead_order_facts(paramiko):
+    src = open(paramiko.packet.__file__, encoding="utf-8").read()
+    return (aead_use_before_increment(src, "send_message", "__iv_out", "encrypt"),
+            aead_use_before_increment(src, "read_message", "__iv_in", "decrypt"))
+
+
 def gen_c04(Transport):
-    """lean/PV/Generated/C04.lean from Transport._cipher_info / _mac_info / _kex_info."""
+    """lean/PV/Generated/C04.lean from Transport._cipher_info / _mac_info / _kex_info and packet.py's AST."""
+    import paramiko
+    send_first, recv_first = aead_order_facts(paramiko)
     rows = []
     for name, info in Transport._cipher_info.items():
         bs = int(info["block-size"])
@@ -103,7 +138,12 @@ def gen_c04(Transport):
         "def macTable : List MacInfo := [\n" + ",\n".join(macs) + "]\n\n"
         "/-- (kex method, digest size of the hash `_compute_key` uses with it) -/\n"
         "def kexHashSizes : List (String × Nat) := [\n" + ",\n".join(kex) + "]\n\n"
-        "end PV.Generated.C04\n"
+        "/-- AST of paramiko/packet.py, Packetizer.send_message: `engine.encrypt(self.__iv_out, …)` textually precedes\n"
+        "    `self.__iv_out = self._inc_iv_counter(self.__iv_out)` (false also when the pattern was not found) -/\n"
+        "def aeadSendUseFirst : Bool := %s\n"
+        "/-- same for Packetizer.read_message: `engine.decrypt(self.__iv_in, …)` before the `__iv_in` step -/\n"
+        "def aeadRecvUseFirst : Bool := %s\n\n"
+        "end PV.Generated.C04\n" % ("true" if send_first else "false", "true" if recv_first else "false")
     )
 
 
